@@ -140,6 +140,7 @@ def c15(ck):
     quick = ck.tier == "quick"
     util.mc_design(ck, "ThreadNames", "MC_ThreadNames", "thread-name stream placement for every list of <= MaxThreads threads, every named/unnamed subset, name lengths {0,2}; invariant C15", coverage=True)
     scns = _names_scenarios(quick, ck.seed)
+    scns += dumps.cross_scenarios(quick, ck.seed)          # every knob drawn independently (see dumps.cross_scenarios)
     runs = dumps.run_scenarios(ck, scns, "c15")
     evs = [dumps.names_event(r, d) for r in runs for d in r["dumps"]]
     for r in runs:
@@ -229,7 +230,7 @@ def c01(ck):
     mc = core.mc_or_die("DumpSeq", "MC_DumpSeq_fresh", workers=8, coverage=True, timeout=1500)
     util.vacuity(ck, mc, "DumpSeq", ["ThreadList", "Modules", "AppMem", "MemList", "Exception", "SysInfo", "BestEffortX", "Names", "Handles", "Return"])
     ck.add_mc(mc, "the dump pipeline as an allocator of objects: every thread list (named/unnamed, with/without stack), app regions, modules, handles, link maps, soft-failing stream; invariants C01, C11, C19 for a fresh writer")
-    scns = _shape_scenarios(25 if quick else 400, ck.seed)
+    scns = _shape_scenarios(25 if quick else 400, ck.seed) + dumps.cross_scenarios(quick, ck.seed)
     runs = dumps.run_scenarios(ck, scns, "c01")
     evs = []
     for r in runs:
@@ -475,7 +476,7 @@ def _reg_targets(quick, seed):
 
 def c04(ck):
     quick = ck.tier == "quick"
-    runs = dumps.run_scenarios(ck, _reg_targets(quick, ck.seed), "c04_regs")
+    runs = dumps.run_scenarios(ck, _reg_targets(quick, ck.seed) + dumps.cross_scenarios(quick, ck.seed), "c04_regs")
     evs = [e for r in runs for d in r["dumps"] for e in th_proj.c04_events(r, d)]
     for r in runs:
         if not r["dumps"]:
@@ -547,7 +548,7 @@ def c05(ck):
     quick = ck.tier == "quick"
     mc = core.mc_or_die("DumpSeq", "MC_DumpSeq_fresh", workers=8, timeout=1500)
     ck.add_mc(mc, "pipeline model: the exception stream's context location is the blamed thread's context of this image (C01 alias clause, C19)")
-    runs = dumps.run_scenarios(ck, _ctx_scenarios(quick, ck.seed), "c05")
+    runs = dumps.run_scenarios(ck, _ctx_scenarios(quick, ck.seed) + dumps.cross_scenarios(quick, ck.seed), "c05")
     evs = [th_proj.c05_event(r, d) for r in runs for d in r["dumps"]]
     evs += [{"ev": "failed", "origin": r["id"]} for r in runs if not r["dumps"]]
     v = _judge_threads(ck, evs, "c05", "exception stream and blamed-thread context vs the supplied ucontext/fpstate/siginfo (every field distinct), and the dump-requested record without a crash context")
@@ -593,7 +594,7 @@ def _stack_scenarios(quick, seed):
 def c06(ck):
     quick = ck.tier == "quick"
     util.mc_design(ck, "MC_StackSel", "MC_StackSel_C06", "get_stack_info walk + size limit + skip rule for one thread: SP at every offset of 4 layouts, list positions 19/20, limit on/off, crash thread or not; invariants C06, WalkIsFunction, WalkBounded; liveness Terminates", workers=8)
-    runs = dumps.run_scenarios(ck, _stack_scenarios(quick, ck.seed), "c06")
+    runs = dumps.run_scenarios(ck, _stack_scenarios(quick, ck.seed) + dumps.cross_scenarios(quick, ck.seed), "c06")
     evs = [e for r in runs for d in r["dumps"] for e in th_proj.c06_events(r, d)]
     evs += [{"ev": "failed", "origin": r["id"]} for r in runs if not r["dumps"] or r["dumps"][0]["outcome"] != "ok"]
     v = _judge_threads(ck, evs, "c06", "captured stack regions of 20..64-thread targets (SP at chosen in-page offsets incl. 2047/2048/2049, in guard pages and holes; size limits around the estimate threshold) vs the stack pointer, the containing mapping and target memory")
@@ -658,7 +659,7 @@ def _skip_scenarios(quick, seed):
 def c20(ck):
     quick = ck.tier == "quick"
     util.mc_design(ck, "MC_StackSel", "MC_StackSel_C20", "skip rule in the StackSel model: IP and stack words at {low-1, low, high-1, high, high+1}; invariant C20 (with C06 and the walk)", workers=8)
-    runs = dumps.run_scenarios(ck, _skip_scenarios(quick, ck.seed), "c20")
+    runs = dumps.run_scenarios(ck, _skip_scenarios(quick, ck.seed) + [s_ for s_ in dumps.cross_scenarios(quick, ck.seed, n=(24 if quick else 240)) if s_["writer"].get("skip")], "c20")
     evs = [e for r in runs for d in r["dumps"] for e in th_proj.c20_events(r, d)]
     evs += [{"ev": "failed", "origin": r["id"]} for r in runs if not r["dumps"] or r["dumps"][0]["outcome"] != "ok"]
     v = _judge_threads(ck, evs, "c20", "which stacks are present under skip-if-unreferenced for threads built holding / not holding a pointer into the principal mapping (aligned, unaligned, below SP, at the mapping's edges), IP inside/outside, with and without crash context; soft-error clause")
@@ -722,11 +723,15 @@ def c07(ck):
     mc = core.mc_or_die("DumpSeq", "MC_DumpSeq_fresh", workers=8, timeout=1500)
     ck.add_mc(mc, "pipeline model: the memory list holds exactly the stacks and application regions produced in this dump, each naming a blob of this image (C01/C19 clauses about memory descriptors)")
     scns = _mem_scenarios(quick, ck.seed)
+    scns += dumps.cross_scenarios(quick, ck.seed)
     runs = dumps.run_scenarios(ck, scns, "c07")
     evs = []
     for r in runs:
         for d in r["dumps"]:
-            app = [(dumps_resolve(a["addr"], r["report"]), a["len"]) for a in r["scn"]["writer"].get("app_memory", [])]
+            # a region whose tail is unmapped appears with the bytes that could be read (C07 quantifies over readable regions; C10 and C01
+            # need the descriptor to say what was written)
+            mp = th_proj.parse_maps(d["oracle"]["maps"]) if d.get("outcome") == "ok" else []
+            app = [(a0, th_proj.readable_len(mp, a0, a["len"]) if mp else a["len"]) for a in r["scn"]["writer"].get("app_memory", []) for a0 in [dumps_resolve(a["addr"], r["report"])]]
             evs.append(th_proj.c07_event(r, d, app))
         if not r["dumps"]:
             evs.append({"ev": "failed", "origin": r["id"]})
